@@ -64,6 +64,7 @@ int main(int argc, char** argv) {
   if (argc < 3) return 2;
   int spare = atoi(argv[1]);
   vh_parse(argv[2]);
+  VH_DIRTY(fifo);
   if (!mpsc_fifo_init(&fifo)) return 2;
   name_node(fifo.head); /* the initial stub is n1 */
   vr_reg(&fifo.head, 8, "head");
